@@ -26,6 +26,9 @@ def run(ctx):
     if not hist:
         raise vf.Infra("AsyncGen(raw) emitted nothing")
     rep.absorb(ctx.vh_sharded("asyncq", hist, extra=["--negwait_ms", "15"], timeout=1500))
+    # raw writes still queued when Destroy begins, several loggers sharing appenders: Shutdown.tla scenarios
+    from checks import shutdown_common
+    shutdown_common.run(ctx, rep)
     rep.exhaustive = True
     rep.rule = ("all histories of length 5 over {Refresh(A), Refresh(B), Destroy, GetLogger(hb|root), Write(ha|hb|root)} "
                 "plus %d simulated of length 9, sync and async; each logger has two references, one whose level range "
@@ -33,6 +36,9 @@ def run(ctx):
                 "its buffer after the call; Write must return (len, nil); same name -> same handle; Refresh fails for an "
                 "unconfigured handle name.  A payload sweep (empty, 1 byte, binary, multi-line, 1 MiB; 1-8 concurrent "
                 "writers recycling one buffer each; all logger kinds) checks verbatim/once/per-writer order.  "
+                "Shutdown.tla scenarios (reference table x accepted items x items still queued when Destroy begins; raw writes and "
+                "events alternate) on asynchronous loggers sharing recording, file and rolling-file appenders: everything accepted is "
+                "in every appender of its logger exactly once.  "
                 "Non-trivial = distinct histories + payload x kind combinations." % len(rs.emitted))
     rep.assumptions = ["TLC/SANY", "Go toolchain", "recording appender plugin"]
     return rep.finish()
